@@ -44,6 +44,7 @@ def run(repo, tier):
     )
     r.trusted_base = ["Python ast", "IEEE-754 parameters"]
     r.rule("R15.1", "sentinel resolution: specified -> caller's value, unspecified -> default (never the sentinel itself)", floor=2)
+    r.rule("R15.7", "the numpy_with_* namespaces cache a wrapper under a key that contains the function name and the whole of self.params", floor=2)
     r.rule("R15.2", "a possibly-unspecified option never reaches a truth test before it is resolved", floor=2)
     r.rule("R15.3", "extra precision: __init__ stores the options backend_context applies; backend calls run inside backend_context", floor=5)
     r.rule("R15.5", "mpf2float's underflow/overflow results carry the sign: the negative arm is a float negative zero / negative infinity", floor=2)
@@ -250,6 +251,38 @@ def run(repo, tier):
     ok = "under:below" in kinds and "over:above" in kinds and all(k in ("under:below", "over:above") for k in kinds)
     r.ob("R15.4", f"{REL}::mpf2float range tests", ok, f"range tests are {sorted(v['text'] + ' (' + v['kind'] + ':' + v['dir'] + ')' for v in rtests.values())}: "
          "zero is returned below the zero threshold, infinity above float_maxexp", loc(REL, mf))
+    # ------------------------------------------------------------------ R15.7 wrapper caches
+    # The numpy_with_* namespaces cache the vectorised wrapper they build with **self.params under a key: the key must determine
+    # everything the wrapper is built from - the name and the whole of self.params - or a namespace with other options is handed
+    # the wrapper of an earlier one (seed C15f: the additive extra_prec option left out of the key).
+    n_cache = 0
+    for cls in [c for c in ast.walk(repo.tree(REL)) if isinstance(c, ast.ClassDef)]:
+        ga = next((m for m in cls.body if isinstance(m, ast.FunctionDef) and m.name == "__getattr__"), None)
+        if ga is None:
+            continue
+        stores = [n for n in ast.walk(ga) if isinstance(n, ast.Subscript) and isinstance(n.ctx, ast.Store) and (dotted(n.value) or "").endswith("_vfunc_cache")]
+        if not stores:
+            continue
+        builds_with_params = any(isinstance(c, ast.Call) and any(k.arg is None and dotted(k.value) == "self.params" for k in c.keywords) for c in ast.walk(ga))
+        for st in stores:
+            n_cache += 1
+            keyexpr = st.slice
+            if isinstance(keyexpr, ast.Name):
+                defs = [a.value for a in ast.walk(ga) if isinstance(a, ast.Assign) and any(isinstance(t, ast.Name) and t.id == keyexpr.id for t in a.targets)]
+                if len(defs) != 1:
+                    raise AnalysisError(f"{cls.name}.__getattr__: cache key `{keyexpr.id}` has {len(defs)} definitions")
+                keyexpr = defs[0]
+            src = norm_src(keyexpr)
+            whole = any(isinstance(c, ast.Call) and isinstance(c.func, ast.Attribute) and c.func.attr == "items" and dotted(c.func.value) == "self.params" for c in ast.walk(keyexpr))
+            partial = [norm_src(c) for c in ast.walk(keyexpr) if (isinstance(c, ast.Call) and isinstance(c.func, ast.Attribute) and c.func.attr == "get" and dotted(c.func.value) == "self.params")
+                       or (isinstance(c, ast.Subscript) and dotted(c.value) == "self.params")]
+            has_name = any(isinstance(c, ast.Name) and c.id == ga.args.args[1].arg for c in ast.walk(keyexpr))
+            ok = has_name and (whole or not builds_with_params)
+            r.ob("R15.7", f"{REL}::{cls.name}.__getattr__ cache key determines the wrapper", ok,
+                 f"the wrapper is built with **self.params but cached under `{src}`" + (f", which reads only {partial}" if partial else "")
+                 + ": two namespaces that differ in another option (e.g. extra_prec) share one wrapper, whichever was created first", loc(REL, st))
+    if n_cache < 2:
+        raise AnalysisError(f"only {n_cache} wrapper caches (_vfunc_cache stores) recognised in utils.py")
     return r
 
 
